@@ -17,14 +17,17 @@ Theorem C11_multi : forall c caller test,
 Proof. exact path_multi. Qed.
 Print Assumptions C11_multi.
 
-(* standalone: <dir>/<Filename, or the test name with / replaced by _>_<k>.snap<Ext> *)
+(* standalone: the FORMAT <dir>/<Filename, or the test name with / replaced by _>_%d.snap<Ext>, in which every '%' of the
+   directory, the calling file, the name and the extension is doubled (fix F8) so that fmt.Sprintf puts the ordinal at the
+   "_%d" and nowhere else: C11_standalone_kth_name / C11_ordinal_substitution below, Properties/C11 PercentP section for the
+   whole path *)
 Theorem C11_standalone : forall c caller test,
   snapshot_path c caller test true =
-  join2 (if is_abs (c_dir c) then c_dir c else join2 (dirname caller) (c_dir c))
-        (((match c_filename c with
-           | [] => replace_byte slash 95%N test
-           | f => f
-           end) ++ B "_%d") ++ B ".snap" ++ c_ext c).
+  join2 (if is_abs (esc_pct (c_dir c)) then esc_pct (c_dir c) else join2 (dirname (esc_pct caller)) (esc_pct (c_dir c)))
+        (esc_pct (match c_filename c with
+                  | [] => replace_byte slash 95%N test
+                  | f => f
+                  end) ++ B "_%d" ++ B ".snap" ++ esc_pct (c_ext c))%list.
 Proof. exact path_standalone. Qed.
 Print Assumptions C11_standalone.
 
@@ -65,16 +68,22 @@ Example C11_example :
                {| fr_func := B "testing.tRunner"; fr_file := B "/go/src/testing/testing.go" |}] = B "/m/pkg/a_test.go".
 Proof. vm_compute. repeat split. Qed.
 
-(* the k-th standalone file: constructFilename appends "_%d" to the name and fmt.Sprintf puts the ordinal there - exactly so
-   when nothing before it holds a '%' (the exactness condition of the model; finding K8 is its failure) *)
+(* the k-th standalone file: constructFilename appends "_%d" to the ESCAPED name and fmt.Sprintf puts the ordinal there -
+   for EVERY name, Filename and extension, '%' and "%d" inside them included (before fix F8 the parts were not escaped:
+   a '%' in a sub-test name corrupted the file name, finding K8) *)
 Theorem C11_standalone_file_name : forall c caller test,
   construct_filename c caller test true =
-  ((match c_filename c with [] => replace_byte slash 95%N test | f => f end) ++ B "_%d" ++ snaps_ext ++ c_ext c)%list.
+  (esc_pct (match c_filename c with [] => replace_byte slash 95%N test | f => f end) ++ B "_%d" ++ snaps_ext ++ esc_pct (c_ext c))%list.
 Proof. exact standalone_file_name. Qed.
+Theorem C11_standalone_kth_name : forall c caller test k,
+  subst_d (construct_filename c caller test true) k =
+  ((match c_filename c with [] => replace_byte slash 95%N test | f => f end) ++ B "_" ++ k ++ snaps_ext ++ c_ext c)%list.
+Proof. exact standalone_file_name_kth. Qed.
 Theorem C11_ordinal_substitution : forall pre post k : bytes,
-  ~ In 37%N pre -> subst_d (pre ++ 37%N :: 100%N :: post)%list k = (pre ++ k ++ post)%list.
-Proof. exact subst_d_first. Qed.
+  subst_d (esc_pct pre ++ 37%N :: 100%N :: esc_pct post)%list k = (pre ++ k ++ post)%list.
+Proof. exact subst_d_format. Qed.
 Print Assumptions C11_standalone_file_name.
+Print Assumptions C11_standalone_kth_name.
 Print Assumptions C11_ordinal_substitution.
 
 (* MatchStandaloneJSON: ".json" exactly when no Ext option was given *)
@@ -87,7 +96,9 @@ Print Assumptions C11_json_ext_given.
 
 (* -trimpath: a relative Dir is kept as it is; the location then depends on the calling test file only through its base name *)
 Theorem C11_trim_dir_kept : forall c caller test standalone,
-  snapshot_path_gen true c caller test standalone = join2 (c_dir c) (construct_filename c caller test standalone).
+  snapshot_path_gen true c caller test standalone =
+  join2 (if standalone then esc_pct (c_dir c) else c_dir c)
+        (construct_filename c (if standalone then esc_pct caller else caller) test standalone).
 Proof. exact trim_dir_kept. Qed.
 Theorem C11_trim_caller_dir_irrelevant : forall c caller1 caller2 test standalone,
   basename caller1 = basename caller2 ->
